@@ -40,7 +40,10 @@ class CallGraph:
                 continue
             recv_expr = None
             for g in fw:
-                recv_expr = call.func if g.name == "__call__" else (call.func.value if isinstance(call.func, ast.Attribute) else None)
+                if isinstance(call.func, ast.Attribute) and P.method(g.cls, call.func.attr) is g:
+                    recv_expr = call.func.value  # x.method(...)
+                else:
+                    recv_expr = call.func  # x(...): the instance is called, through __call__ or an alias of it
                 if recv_expr is None:
                     continue
                 insts = [v for v in types.ev(recv_expr, f, mod) if v[0] == "C"]
